@@ -9,6 +9,7 @@ harness/src/bin/c03.rs on every run (render results of generated programs, plus 
 import TeraModel.Lemmas.EvalScope
 import TeraModel.Lemmas.EvalRouting
 import TeraModel.Lemmas.EvalFrame
+import TeraModel.Lemmas.EvalFuel
 namespace Tera.C03
 open Tera
 
@@ -711,5 +712,73 @@ theorem break_ends_continue_next (fuel : Nat) (env : Env) (ae : Bool) (st st1 : 
       = if sig = .brk then .ok st1 else execFor fuel env ae st1 body := by
   simp only [execFor, hl, hi, h]
   cases sig <;> simp
+
+/-- Every iteration of a loop run by the evaluator starts with empty per-iteration assignments: the
+loop starts with none (`startLoop_fields`), the first `Iterate` keeps that and sets a non-zero
+`end_ip`, every later `Iterate` clears them — so what `{% set %}` stored during one iteration is
+never visible in the next one (`set_in_loop_is_iteration_local` at the level of whole loops). -/
+theorem iteration_starts_clean (l l' : ForLoop) (h : l.iterate ITERATE_END_IP = some l')
+    (hinv : l.endIp ≠ 0 ∨ l.context = []) : l'.context = [] ∧ l'.endIp ≠ 0 := by
+  have hne : l.remaining ≠ [] := by
+    intro hr
+    rw [ForLoop.iterate_over l _ hr] at h
+    cases h
+  obtain ⟨it, rest, hr⟩ : ∃ it rest, l.remaining = it :: rest := by
+    cases hl : l.remaining with
+    | nil => exact absurd hl hne
+    | cons it rest => exact ⟨it, rest, rfl⟩
+  by_cases h0 : l.endIp = 0
+  · obtain ⟨l2, h2, _, _, _, _, _, f6, _, _, f9, _⟩ := ForLoop.iterate_first l ITERATE_END_IP it rest h0 hr
+    rw [h] at h2
+    injection h2 with h2
+    subst h2
+    rcases hinv with hi | hi
+    · exact absurd h0 hi
+    · exact ⟨f6.trans hi, by rw [f9]; decide⟩
+  · obtain ⟨l2, h2, _, _, _, _, _, f6, _, _, f9, _⟩ := ForLoop.iterate_next l ITERATE_END_IP it rest h0 hr
+    rw [h] at h2
+    injection h2 with h2
+    subst h2
+    exact ⟨f6, by rw [f9]; decide⟩
+
+/-! ### fuel -/
+
+/-- `fuel_is_only_a_bound`: the fuel argument bounds the recursion and nothing else: a render
+that does not end in the explicit out-of-fuel outcome has the same result with every larger fuel.
+(The theorems above are stated at the fuel at which the engine-visible sub-steps run; they hold
+at every larger fuel too, by this one.) -/
+theorem fuel_is_only_a_bound (env : Env) (n m : Nat) (hnm : n ≤ m) (name : String) (ctx g : Ctx)
+    (r : Except Err (List Char)) (h : render n env name ctx g = r) (hr : r ≠ .error .fuel) :
+    render m env name ctx g = r := by
+  have hm : m = n + (m - n) := by omega
+  have H := fuelLe_add env n (m - n)
+  rw [← hm] at H
+  unfold render at h ⊢
+  cases ht : env.template name with
+  | none => simpa [ht] using h
+  | some t =>
+    simp only [ht] at h ⊢
+    cases hx : execNodes n env t.autoescape ⟨Scope.root ctx g, [], []⟩ t.nodes with
+    | error e =>
+      rw [hx] at h
+      have he : (Except.error e : Except Err (St × Sig)) ≠ .error .fuel := by
+        intro c
+        injection c with c
+        subst c
+        exact hr h.symm
+      rw [H.nodes _ _ _ _ hx he]
+      exact h
+    | ok p =>
+      rw [hx] at h
+      rw [H.nodes _ _ _ _ hx (NFu_ok _)]
+      exact h
+
+/-- The same for statement lists (used with the theorems of this file). -/
+theorem exec_fuel_irrelevant (env : Env) (n m : Nat) (hnm : n ≤ m) (ae : Bool) (st : St)
+    (ns : List Node) (r : Except Err (St × Sig)) (h : execNodes n env ae st ns = r)
+    (hr : r ≠ .error .fuel) : execNodes m env ae st ns = r := by
+  have hm : m = n + (m - n) := by omega
+  rw [hm]
+  exact (fuelLe_add env n (m - n)).nodes ae st ns r h hr
 
 end Tera.C03
